@@ -20,7 +20,7 @@ pub async fn run(seed: u64) -> serde_json::Value {
         dst: hosts::IMDS.to_string(),
         start_ms: 0,
         pipeline: false,
-        reqs: vec![clients::ReqPlan { method: "GET".into(), target: "/metadata/foo?x=1".into(), headers: vec![("Host".into(), b"169.254.169.254".to_vec()), ("Metadata".into(), b"true".to_vec())], body: vec![], has_body: false, chunks: None, tok: "c0r0".into(), declared_only: false }],
+        reqs: vec![clients::ReqPlan { method: "GET".into(), target: "/metadata/foo?x=1".into(), headers: vec![("Host".into(), b"169.254.169.254".to_vec()), ("Metadata".into(), b"true".to_vec())], body: vec![], has_body: false, chunks: None, tok: "c0r0".into(), declared_only: false, after_head_ms: 0, mid_body_ms: 0 }],
         gap_ms: 0,
         close: "normal".into(),
         protocol: 6,
